@@ -191,8 +191,11 @@ type Session struct {
 }
 
 // Open loads the bytes with the real deb.Load and records everything but the payload.
-func Open(b []byte) *Session {
-	return openWith(func() (*deb.Deb, error) { return deb.Load(bytes.NewReader(b), "verif.deb") })
+func Open(b []byte) *Session { return OpenAs(b, "verif.deb") }
+
+// OpenAs is Open with a chosen pathname argument of deb.Load (the library records it in Deb.Path).
+func OpenAs(b []byte, pathname string) *Session {
+	return openWith(func() (*deb.Deb, error) { return deb.Load(bytes.NewReader(b), pathname) })
 }
 
 // OpenFile loads a package file with deb.LoadFile; the returned closer is kept in the session (CallCloser).
@@ -352,12 +355,17 @@ func (s *Session) CallCloser() {
 // signature there), then closes the Deb. Panics of the library are outcomes; so is a step that does not return
 // within HangGuard (Obs.Hang).
 func Observe(b []byte, after func(d *deb.Deb)) Obs {
+	return ObserveWith(func() *Session { return Open(b) }, after)
+}
+
+// ObserveWith is Observe with a chosen way of opening the package (OpenAs, OpenFile).
+func ObserveWith(open func() *Session, after func(d *deb.Deb)) Obs {
 	if atomic.LoadInt32(&Aborted) != 0 {
 		return Obs{Skipped: true}
 	}
 	res := make(chan Obs, 1)
 	if !Guarded(func() {
-		s := Open(b)
+		s := open()
 		if s.d != nil && s.O.Panic == "" {
 			s.ReadPayload()
 			if after != nil && s.O.Panic == "" {
